@@ -277,6 +277,7 @@ func Worker(o core.WorkerOpts) *core.Report {
 		if r.IntN(5) == 0 {
 			c.Warm = warmVars(r, g)
 		}
+		l.Current(caseSeed, c)
 		res := Execute(c, false)
 		l.NoteTrace(res.Trace.Hash())
 		if !res.InDomain {
